@@ -224,8 +224,11 @@ def c_pow_int(rng, fn):
     if rng.random() < 0.15 and s[1] and s[3] > 1:
         n = 1000 // s[3] + rng.randint(-1, 1)
     exact = None
-    if fin(s) and (s[1] or n > 0) and s[3] * abs(n) < 200000 and abs(s[2] * n) < 10**6:
-        exact = ("v", V(s) ** n) if (V(s) != 0 or n > 0) else None
+    if fin(s) and (s[1] or n > 0) and s[3] * abs(n) < 40000 and abs(s[2] * n) < 10**5:
+        exact = ("pow", V(s) ** n, n, s[3]) if (V(s) != 0 or n > 0) else None
+    elif fin(s) and s[1] and abs(n) >= 2:
+        # huge powers: only magnitude bracketing by integer log2 bounds (direction clause)
+        exact = ("powbig", s, n)
     return Case(fn, list(s) + [n, prec, r2i(rnd)], lambda: call_impl(L.mpf_pow_int, s, n, prec, rnd), exact, prec, rnd)
 
 
@@ -261,6 +264,8 @@ def c_intpart(rng, fn):
     prec = gen.pick_prec(rng, allow_zero=True)
     rnd = rng.choice(RND)
     s = int_like(rng, prec or 53)
+    if prec == 0 and fin(s) and abs(s[2]) > 3000:
+        s = (s[0], s[1], s[2] % 6000 - 3000, s[3])     # exact frac of 2^(-2^70) needs 2^70 bits in the code itself
     f = {"mpf_floor": L.mpf_floor, "mpf_ceil": L.mpf_ceil, "mpf_nint": L.mpf_nint, "mpf_frac": L.mpf_frac}[fn]
     exact = None
     if fin(s) and abs(s[2]) < 10**5:
@@ -484,6 +489,58 @@ def isqrt_round_ok(t, x, prec, rnd):
     return True   # undecided at this size: not counted as a failure
 
 
+def pow_spec(t, case):
+    """C03 clauses for x**n with exact value available"""
+    bad = []
+    _, ex, n, sbc = case.exact
+    prec, rnd = case.prec, case.rnd
+    if is_special(t):
+        return [("POW", "non-finite result for finite base")]
+    y = V(t) if t[1] else Fraction(0)
+    # exact results are returned exactly / few-bit results are correctly rounded
+    if ex != 0:
+        r = round_fraction(ex, prec, rnd)
+        rv_ = Fraction(r[1]) * Fraction(2) ** r[2] * (-1 if r[0] else 1)
+        representable = (rv_ == ex)
+        if representable and y != ex:
+            bad.append(("POW", "exact power not returned exactly"))
+        if n > 0 and sbc * n < 1000 and y != rv_:
+            bad.append(("POW", "small power not correctly rounded"))
+        # direction
+        if rnd == 'f' and y > ex: bad.append(("POW", "floor result above exact power"))
+        if rnd == 'c' and y < ex: bad.append(("POW", "ceiling result below exact power"))
+        if rnd == 'd' and abs(y) > abs(ex): bad.append(("POW", "round-down result larger in magnitude than exact power"))
+        if rnd == 'u' and abs(y) < abs(ex): bad.append(("POW", "round-up result smaller in magnitude than exact power"))
+        if (y > 0) != (ex > 0) and y != 0: bad.append(("POW", "wrong sign"))
+        if rnd == 'n':
+            # within one unit in the last place (of the result's binade)
+            ulp = Fraction(2) ** (t[2] + t[3] - prec) if t[1] else Fraction(0)
+            if abs(y - ex) > ulp: bad.append(("POW", "nearest result more than one ulp from exact power"))
+    elif y != 0:
+        bad.append(("POW", "0**n nonzero"))
+    return bad
+
+
+def powbig_spec(t, case):
+    """direction clause for huge powers via integer bounds on log2|x^n|: |x| in [2^(e-1), 2^e) with e = exp+bc,
+    so |x^n| in [2^(n(e-1)), 2^(ne)) for n>0 (reversed for n<0); the result's top bit must lie in that range
+    (one extra binade allowed for rounding up to a power of two)."""
+    _, s, n = case.exact
+    if is_special(t) or not t[1]:
+        return [("POW", "non-finite or zero result for a finite nonzero base")]
+    e = s[2] + s[3]
+    lo, hi = (n * (e - 1), n * e) if n > 0 else (n * e, n * (e - 1))
+    if s[1] == 1:
+        lo = hi = n * (e - 1)
+    top = t[2] + t[3] - 1          # floor(log2 |y|)
+    if not (lo - 1 <= top <= hi + 1):
+        return [("POW", "magnitude of huge power outside the exact bracket")]
+    want_sign = s[0] & (n & 1)
+    if t[0] != want_sign:
+        return [("POW", "wrong sign of huge power")]
+    return []
+
+
 def spec_check(case, out):
     """Return list of (property, text) violated by implementation output `out` (encoded) for `case`."""
     bad = []
@@ -504,6 +561,10 @@ def spec_check(case, out):
             elif kind == "sqrt":
                 if not isqrt_round_ok(t, case.exact[1], case.prec, case.rnd):
                     bad.append(("ROUND", "sqrt result is not correctly rounded"))
+            elif kind == "pow":
+                bad += pow_spec(t, case)
+            elif kind == "powbig":
+                bad += powbig_spec(t, case)
             elif kind == "sum":
                 if case.exact[2] == 1 and not value_eq_round(t, case.exact[1], case.prec, case.rnd):
                     bad.append(("ROUND", "fsum result is not the correctly rounded exact sum"))
